@@ -7,6 +7,7 @@ Arithmetic on gauge/histogram values is exact (dyadic rationals); IEEE rounding 
 Concurrent `record()` vs. drain is the composition with the bucket model (C05).
 -/
 import MetricsVerif.Proofs.Prom
+import MetricsVerif.Generated.SourceFacts
 
 namespace MetricsVerif.C07
 open MetricsVerif.Prom MetricsVerif.PromFmt MetricsVerif.PromRender
@@ -109,6 +110,7 @@ theorem step_counter (s : St) (op : Op) (k : MKey) :
   | gset k v => rfl
   | gadd k n => rfl
   | hrec k v => rfl
+  | hrecMany k v n => rfl
   | upkeep => rfl
 
 /-- **counter refinement**: after any history the cell of `k` is the fold of `k`'s own operations -/
@@ -161,6 +163,7 @@ theorem step_gauge (s : St) (op : Op) (k : MKey) :
     · have : ¬ k' = k := fun e => h e.symm
       simp [h, this]
   | hrec k v => rfl
+  | hrecMany k v n => rfl
   | upkeep => rfl
 
 /-- **gauge refinement** -/
@@ -229,6 +232,7 @@ theorem step_desc (s : St) (op : Op) (n : Str) :
   | gset k' v => rfl
   | gadd k' n => rfl
   | hrec k v => rfl
+  | hrecMany k v n => rfl
   | upkeep => rfl
 
 /-- **first description wins** (per sanitised name) -/
@@ -294,7 +298,373 @@ theorem imInsert_length_le (m : List (Str × Str)) (k v : Str) : m.length ≤ (i
   | nil => simp [imInsert]
   | cons x xs ih => simp only [imInsert]; split <;> simp <;> omega
 
+/-- `add_global_label` given the same name again: the label takes the LAST value given (and, `imInsert` being an
+    in-place update, keeps its first position) — the configured global label set is the last-wins fold of the calls -/
+theorem global_labels_last_wins (raw : List (Str × Str)) (n : Str) :
+    lookup (buildGlobals raw) n = raw.foldl (fun acc kv => if kv.1 = n then some kv.2 else acc) none := by
+  simpa [buildGlobals] using merged_labels raw [] n
+
+/-! ## `record_many(v, n)` is `n` times `record(v)` -/
+
+theorem upsert_upsert {κ α : Type} [DecidableEq κ] (m : List (κ × α)) (k : κ) (d : α) (f g : α → α) :
+    upsert (upsert m k d f) k d g = upsert m k d (fun a => g (f a)) := by
+  induction m with
+  | nil => simp [upsert]
+  | cons x xs ih =>
+    obtain ⟨kx, ax⟩ := x
+    simp only [upsert]
+    by_cases hx : kx = k
+    · simp [hx, upsert]
+    · simp [hx, upsert, ih]
+
+theorem hrecMany_unfold (s : St) (k : MKey) (v : Int) (n : Nat) :
+    step s (.hrecMany k v (n + 1)) = step (step s (.hrec k v)) (.hrecMany k v n) := by
+  simp only [step, upsert_upsert]
+  congr 2
+  funext p
+  simp [List.replicate_succ]
+
+/-- a `record_many(v, n)` with `n ≥ 1` leaves the recorder in exactly the state `n` single `record(v)` calls leave it
+    in (for `n = 0` it only registers the key, which `hist_conserved` covers: it adds 0 to `_count` and `_sum`) -/
+theorem hrecMany_eq_records (k : MKey) (v : Int) (n : Nat) :
+    ∀ s : St, step s (.hrecMany k v (n + 1)) = run s (List.replicate (n + 1) (.hrec k v)) := by
+  induction n with
+  | zero => intro s; simp [step, run]
+  | succ n ih =>
+    intro s
+    rw [hrecMany_unfold, ih]
+    simp [run, List.replicate_succ]
+
+/-! ## rendering twice: the very same lines (not only the same counts) -/
+
+theorem getDist_drainOne (cfg : Cfg) (ds) (kh : MKey × List Int) (p : Parts) :
+    getDist (drainOne cfg ds kh) p
+      = if p = partsOf cfg kh.1 then some (((getDist ds p).getD (newDist cfg p.1)).recordMany kh.2) else getDist ds p := by
+  unfold drainOne partsOf
+  generalize keyToParts kh.1.name kh.1.labels cfg.globals = np
+  obtain ⟨n, l⟩ := np
+  simp only [getDist_upsert2]
+  by_cases h : p = (n, l)
+  · subst h; simp
+  · simp [h]
+
+theorem drainFold_present (cfg : Cfg) (hs : List (MKey × List Int)) (p : Parts) :
+    ∀ ds, ((getDist ds p).isSome ∨ ∃ kh ∈ hs, partsOf cfg kh.1 = p) → (getDist (hs.foldl (drainOne cfg) ds) p).isSome := by
+  induction hs with
+  | nil => intro ds h; rcases h with h | ⟨_, hm, _⟩
+           · exact h
+           · cases hm
+  | cons kh rest ih =>
+    intro ds h
+    simp only [List.foldl_cons]
+    apply ih
+    by_cases e : p = partsOf cfg kh.1
+    · left; rw [getDist_drainOne]; simp [e]
+    · rcases h with h | ⟨kh', hm, hp⟩
+      · left; rw [getDist_drainOne]; simpa [e] using h
+      · rcases List.mem_cons.mp hm with rfl | hm
+        · exact absurd hp.symm e
+        · right; exact ⟨kh', hm, hp⟩
+
+/-- draining an empty bucket into a distribution that already exists changes nothing -/
+theorem drainOne_nil_id (cfg : Cfg) (ds) (k : MKey) (h : (getDist ds (partsOf cfg k)).isSome) :
+    drainOne cfg ds (k, []) = ds := by
+  unfold drainOne
+  unfold partsOf at h
+  simp only
+  generalize keyToParts k.name k.labels cfg.globals = np at h ⊢
+  obtain ⟨n, l⟩ := np
+  simp only [getDist] at h
+  cases hm : lookup ds n with
+  | none => simp [hm] at h
+  | some m =>
+    simp only [hm, Option.bind_some] at h
+    apply upsert_id_of_mem
+    · intro a ha
+      rw [hm] at ha
+      injection ha with ha
+      subst ha
+      apply upsert_id_of_mem
+      · intro d _; rfl
+      · exact h
+    · simp [hm]
+
+theorem drainFold_nil_id (cfg : Cfg) (ks : List (MKey × List Int)) :
+    ∀ ds, (∀ kh ∈ ks, (getDist ds (partsOf cfg kh.1)).isSome) →
+      (ks.map (fun kh => (kh.1, ([] : List Int)))).foldl (drainOne cfg) ds = ds := by
+  induction ks with
+  | nil => intro ds _; rfl
+  | cons kh rest ih =>
+    intro ds h
+    simp only [List.map_cons, List.foldl_cons]
+    rw [drainOne_nil_id cfg ds kh.1 (h kh (List.mem_cons_self ..))]
+    exact ih ds (fun kh' hm => h kh' (List.mem_cons_of_mem _ hm))
+
+/-- draining is idempotent on the whole state -/
+theorem drain_drain (s : St) : drain (drain s) = drain s := by
+  have hd : (drain (drain s)).dists = (drain s).dists := by
+    rw [drain_dists (drain s), drain_hists, drain_cfg]
+    apply drainFold_nil_id
+    intro kh hm
+    rw [drain_dists]
+    exact drainFold_present s.cfg s.hists _ s.dists (Or.inr ⟨kh, hm, rfl⟩)
+  have hh : (drain (drain s)).hists = (drain s).hists := by
+    simp [drain_hists, List.map_map, Function.comp_def]
+  cases h1 : drain (drain s) with
+  | mk c1 d1 co1 g1 h1' ds1 =>
+    cases h2 : drain s with
+    | mk c2 d2 co2 g2 h2' ds2 =>
+      have e : drain (drain s) = { drain s with dists := (drain (drain s)).dists, hists := (drain (drain s)).hists } := rfl
+      rw [hd, hh] at e
+      rw [← h1, e, h2]
+
+/-- **render twice = the same lines**: with no update in between, a second `render()` returns exactly the lines
+    of the first and leaves the same state (in the model the summary quantile values are the opaque token `q`; in
+    the code they age with the clock, which is the exception the property makes) -/
+theorem render_idempotent_lines (s : St) : renderLines (renderLines s).1 = renderLines s := by
+  have e : (renderLines s).1 = drain s := rfl
+  rw [e]
+  show (let s' := drain (drain s); _) = _
+  simp only [renderLines, drain_drain]
+
+/-! ## what the rendered lines show (the theorems above are about the state; these reach the text lines) -/
+
+theorem lookup_some_mem {κ α : Type} [DecidableEq κ] (m : List (κ × α)) (k : κ) (a : α) (h : lookup m k = some a) :
+    (k, a) ∈ m := by
+  induction m with
+  | nil => simp [lookup] at h
+  | cons x xs ih =>
+    obtain ⟨kx, ax⟩ := x
+    simp only [lookup] at h
+    by_cases hx : kx = k
+    · simp only [hx, if_true] at h
+      injection h with h
+      subst hx; subst h
+      exact List.mem_cons_self ..
+    · simp only [hx, if_false] at h
+      exact List.mem_cons_of_mem _ (ih h)
+
+/-- one step of the grouping loop -/
+def groupStep (globals : List (Str × Str)) (fams : List (Str × List Series)) (kv : MKey × Str) :=
+  let (name, labels) := keyToParts kv.1.name kv.1.labels globals
+  upsert fams name [] (fun ss => ss ++ [(⟨labels, .scalar kv.2⟩ : Series)])
+
+theorem groupFamilies_eq (entries : List (MKey × Str)) (globals : List (Str × Str)) :
+    groupFamilies entries globals = entries.foldl (groupStep globals) [] := rfl
+
+def hasSeries (fams : List (Str × List Series)) (name : Str) (x : Series) : Prop :=
+  ∃ ss, lookup fams name = some ss ∧ x ∈ ss
+
+theorem groupStep_keeps (globals) (fams) (kv : MKey × Str) (name : Str) (x : Series) (h : hasSeries fams name x) :
+    hasSeries (groupStep globals fams kv) name x := by
+  obtain ⟨ss, hl, hx⟩ := h
+  unfold groupStep
+  simp only
+  generalize keyToParts kv.1.name kv.1.labels globals = np
+  obtain ⟨n, l⟩ := np
+  simp only [hasSeries, lookup_upsert]
+  by_cases e : name = n
+  · subst e
+    simp only [if_true, hl, Option.getD_some]
+    exact ⟨_, rfl, List.mem_append_left _ hx⟩
+  · simp only [e, if_false]
+    exact ⟨ss, hl, hx⟩
+
+theorem groupStep_adds (globals) (fams) (kv : MKey × Str) :
+    hasSeries (groupStep globals fams kv) (keyToParts kv.1.name kv.1.labels globals).1
+      ⟨(keyToParts kv.1.name kv.1.labels globals).2, .scalar kv.2⟩ := by
+  unfold groupStep
+  simp only
+  generalize keyToParts kv.1.name kv.1.labels globals = np
+  obtain ⟨n, l⟩ := np
+  simp only [hasSeries, lookup_upsert, if_true]
+  exact ⟨_, rfl, List.mem_append_right _ (List.mem_singleton.mpr rfl)⟩
+
+/-- every entry given to the grouping loop ends up as a series of the family of its sanitised name, carrying its
+    merged labels and its value text -/
+theorem groupFamilies_shows (entries : List (MKey × Str)) (globals : List (Str × Str)) (kv : MKey × Str)
+    (h : kv ∈ entries) :
+    hasSeries (groupFamilies entries globals) (keyToParts kv.1.name kv.1.labels globals).1
+      ⟨(keyToParts kv.1.name kv.1.labels globals).2, .scalar kv.2⟩ := by
+  rw [groupFamilies_eq]
+  have gen : ∀ (es : List (MKey × Str)) (fams : List (Str × List Series)),
+      (kv ∈ es ∨ hasSeries fams (keyToParts kv.1.name kv.1.labels globals).1
+          ⟨(keyToParts kv.1.name kv.1.labels globals).2, .scalar kv.2⟩) →
+      hasSeries (es.foldl (groupStep globals) fams) (keyToParts kv.1.name kv.1.labels globals).1
+          ⟨(keyToParts kv.1.name kv.1.labels globals).2, .scalar kv.2⟩ := by
+    intro es
+    induction es with
+    | nil => intro fams h; rcases h with h | h
+             · cases h
+             · exact h
+    | cons e rest ih =>
+      intro fams h
+      simp only [List.foldl_cons]
+      apply ih
+      rcases h with h | h
+      · rcases List.mem_cons.mp h with rfl | h
+        · right; exact groupStep_adds globals fams kv
+        · left; exact h
+      · right; exact groupStep_keeps globals fams e _ _ h
+  exact gen entries [] (Or.inl h)
+
+theorem renderFamily_mem (us : Bool) (name : Str) (desc) (ty : Str) (series : List Series) (x : Series) (hx : x ∈ series) :
+    ∃ fam, ∀ l ∈ seriesLines fam x, l ∈ renderFamily us name desc ty series := by
+  cases desc with
+  | none =>
+    refine ⟨familyName name none, fun l hl => ?_⟩
+    simp only [renderFamily, List.mem_append, List.mem_flatMap]
+    exact Or.inl (Or.inr ⟨x, hx, hl⟩)
+  | some du =>
+    obtain ⟨d, u⟩ := du
+    refine ⟨familyName name (if us then u else none), fun l hl => ?_⟩
+    simp only [renderFamily, List.mem_append, List.mem_flatMap]
+    exact Or.inl (Or.inr ⟨x, hx, hl⟩)
+
+/-- **counter line**: whenever the history leaves the counter of key `k` at `v` (see `counter_refines` /
+    `counter_sum` for what `v` is), `render()` writes a sample line for `k`'s series — the key's merged labels —
+    whose value text is `v`. -/
+theorem render_shows_counter (cfg : Cfg) (ops : List Op) (k : MKey) (v : Nat)
+    (h : ops.foldl (specCounter k) none = some v) :
+    ∃ fam, Line.sample fam none (partsOf cfg k).2 none (natText v) ∈ (renderLines (run (init cfg) ops)).2.flatten := by
+  have hl := counter_refines cfg ops k
+  rw [h] at hl
+  have hm := lookup_some_mem _ _ _ hl
+  have hc : (run (init cfg) ops).cfg = cfg := by rw [run_cfg]; rfl
+  have hmem : (k, natText v) ∈ (run (init cfg) ops).counters.map (fun kv => (kv.1, natText kv.2)) :=
+    List.mem_map.mpr ⟨(k, v), hm, rfl⟩
+  obtain ⟨ss, hs1, hs2⟩ := groupFamilies_shows _ cfg.globals (k, natText v) hmem
+  have hfam := lookup_some_mem _ _ _ hs1
+  obtain ⟨fam, hf⟩ := renderFamily_mem cfg.unitSuffix (keyToParts k.name k.labels cfg.globals).1
+    (lookup (run (init cfg) ops).descs (keyToParts k.name k.labels cfg.globals).1) "counter".toList ss _ hs2
+  refine ⟨fam, ?_⟩
+  have hline := hf (Line.sample fam none (partsOf cfg k).2 none (natText v)) (by simp [seriesLines, partsOf])
+  simp only [renderLines, List.mem_flatten]
+  refine ⟨_, ?_, hline⟩
+  simp only [List.mem_append, List.mem_map]
+  refine Or.inl (Or.inl ⟨((keyToParts k.name k.labels cfg.globals).1, ss), ?_, ?_⟩)
+  · show _ ∈ groupFamilies ((drain (run (init cfg) ops)).counters.map _) (drain (run (init cfg) ops)).cfg.globals
+    rw [drain_cfg, hc]
+    exact hfam
+  · simp only [drain_cfg, hc]
+    rfl
+
+/-- **gauge line**: the same for gauges — the value token is the last value's (`gauge_refines`, `gauge_set_last`). -/
+theorem render_shows_gauge (cfg : Cfg) (ops : List Op) (k : MKey) (v : Val)
+    (h : ops.foldl (specGauge k) none = some v) :
+    ∃ fam, Line.sample fam none (partsOf cfg k).2 none v.tok ∈ (renderLines (run (init cfg) ops)).2.flatten := by
+  have hl := gauge_refines cfg ops k
+  rw [h] at hl
+  have hm := lookup_some_mem _ _ _ hl
+  have hc : (run (init cfg) ops).cfg = cfg := by rw [run_cfg]; rfl
+  have hmem : (k, v.tok) ∈ (run (init cfg) ops).gauges.map (fun kv => (kv.1, kv.2.tok)) :=
+    List.mem_map.mpr ⟨(k, v), hm, rfl⟩
+  obtain ⟨ss, hs1, hs2⟩ := groupFamilies_shows _ cfg.globals (k, v.tok) hmem
+  have hfam := lookup_some_mem _ _ _ hs1
+  obtain ⟨fam, hf⟩ := renderFamily_mem cfg.unitSuffix (keyToParts k.name k.labels cfg.globals).1
+    (lookup (run (init cfg) ops).descs (keyToParts k.name k.labels cfg.globals).1) "gauge".toList ss _ hs2
+  refine ⟨fam, ?_⟩
+  have hline := hf (Line.sample fam none (partsOf cfg k).2 none v.tok) (by simp [seriesLines, partsOf])
+  simp only [renderLines, List.mem_flatten]
+  refine ⟨_, ?_, hline⟩
+  simp only [List.mem_append, List.mem_map]
+  refine Or.inl (Or.inr ⟨((keyToParts k.name k.labels cfg.globals).1, ss), ?_, ?_⟩)
+  · show _ ∈ groupFamilies ((drain (run (init cfg) ops)).gauges.map _) (drain (run (init cfg) ops)).cfg.globals
+    rw [drain_cfg, hc]
+    exact hfam
+  · simp only [drain_cfg, hc]
+    rfl
+
+/-- **histogram / summary lines**: for every series `p` that has a distribution after the drain, `render()` writes
+    a `_count` line whose text is the number of samples ever recorded under the keys rendered as `p`, and a `_sum`
+    line whose text is their sum — for any history of record / record_many / upkeep / render calls. -/
+theorem render_shows_hist (cfg : Cfg) (ops : List Op) (p : Parts) (d : Dist)
+    (h : getDist (renderLines (run (init cfg) ops)).1.dists p = some d) :
+    ∃ fam, Line.sample fam (some "count".toList) p.2 none (natText ((ops.map (opCount cfg p)).sum))
+              ∈ (renderLines (run (init cfg) ops)).2.flatten
+         ∧ Line.sample fam (some "sum".toList) p.2 none (intTok ((ops.map (opSum cfg p)).sum))
+              ∈ (renderLines (run (init cfg) ops)).2.flatten := by
+  have hr := render_reports_hist cfg ops p
+  simp only [h, dCount, dSum, Option.map_some, Option.getD_some] at hr
+  obtain ⟨hcnt, hsum⟩ := hr
+  have e : (renderLines (run (init cfg) ops)).1 = drain (run (init cfg) ops) := rfl
+  rw [e] at h
+  simp only [getDist] at h
+  cases hm : lookup (drain (run (init cfg) ops)).dists p.1 with
+  | none => simp [hm] at h
+  | some m =>
+    simp only [hm, Option.bind_some] at h
+    have h1 := lookup_some_mem _ _ _ hm
+    have h2 := lookup_some_mem _ _ _ h
+    let s := drain (run (init cfg) ops)
+    have hx : distSeries s.cfg.quantiles p.2 d ∈ m.map (fun ld => distSeries s.cfg.quantiles ld.1 ld.2) :=
+      List.mem_map.mpr ⟨(p.2, d), h2, rfl⟩
+    obtain ⟨fam, hf⟩ := renderFamily_mem s.cfg.unitSuffix p.1 (lookup s.descs p.1) (distType s.cfg p.1) _ _ hx
+    have inl : ∀ l, l ∈ seriesLines fam (distSeries s.cfg.quantiles p.2 d) → l ∈ (renderLines (run (init cfg) ops)).2.flatten := by
+      intro l hl
+      simp only [renderLines, List.mem_flatten]
+      refine ⟨_, ?_, hf l hl⟩
+      simp only [List.mem_append, List.mem_map]
+      exact Or.inr ⟨(p.1, m), h1, rfl⟩
+    refine ⟨fam, inl _ ?_, inl _ ?_⟩
+    · cases d with
+      | hist b c n sm => simp [distSeries, seriesLines, ← hcnt, Dist.count]
+      | summ n sm => simp [distSeries, seriesLines, ← hcnt, Dist.count]
+    · cases d with
+      | hist b c n sm => simp [distSeries, seriesLines, ← hsum, Dist.sum]
+      | summ n sm => simp [distSeries, seriesLines, ← hsum, Dist.sum]
+
+/-! ## source facts (tools/extract.py → Generated/SourceFacts.lean, regenerated from the repository on every run)
+
+Facts about the drain path that no sequential run on x86 can observe; the model's `drain` / `hrecMany` /
+`Dist.record` are justified by them. -/
+
+/-- `drain_histograms_to_distributions` takes the distributions lock FIRST and empties the bucket (`clear_with`) with
+    `record_samples` as its callback while holding it: the model's `drain` is one atomic step, and a concurrent
+    `render()` can never find a sample neither in the bucket nor in the distribution. -/
+theorem src_drain_under_lock : Generated.prom_drain_steps = ["lock", "clear_with", "record_samples"] := by decide
+
+/-- `run_upkeep` is exactly one drain; `get_recent_metrics` (hence `render`) drains and only afterwards takes its
+    snapshot of the distributions — the model's `Op.upkeep` and `renderLines`. -/
+theorem src_upkeep_and_render_drain :
+    Generated.prom_run_upkeep_body = "{self.drain_histograms_to_distributions();}"
+    ∧ Generated.prom_get_recent_metrics_calls = ["drain_histograms_to_distributions", "distributions.read"] := by decide
+
+/-- the exporter's histogram handle defines `record` only (both the timestamping bucket and the generational
+    wrapper), it pushes the value it was given unchanged, and the trait's default `record_many` is the loop of `count`
+    `record` calls — the model's `Op.hrecMany` (`hrecMany_eq_records`). -/
+theorem src_record_path :
+    Generated.prom_histogram_fn_methods = ["record"]
+    ∧ Generated.prom_histogram_record_push = "(value,now)"
+    ∧ Generated.generational_histogram_fn_methods = ["record"]
+    ∧ Generated.histogram_fn_record_many_default = "{for_in0..count{self.record(value);}}" := by decide
+
+/-- folding drained samples: the summary arm adds every sample to the rolling summary AND to the running sum, the
+    histogram arm hands every sample to `Histogram::record_many`; `RollingSummary::add` counts the sample in its very
+    first statement — before any of the time-dependent branches — and nowhere else (the model's `Dist.record`:
+    `count + 1`, `sum + v`, whatever the time stamps). -/
+theorem src_fold_path :
+    Generated.prom_record_samples_summary_arm = "{for(sample,ts)insamples{hist.add(*sample,*ts);*sum+=*sample;}}"
+    ∧ Generated.prom_record_samples_histogram_arm = "{hist.record_many(samples.iter().map(|(sample,_ts)|sample));}"
+    ∧ Generated.rolling_add_first_statement = "self.count+=1;"
+    ∧ Generated.rolling_add_count_updates = 1 := by decide
+
 /-! ## non-vacuity -/
+
+example :
+    let k : MKey := ⟨"lat".toList, []⟩
+    let cfg : Cfg := { unitSuffix := false, globals := buildGlobals [("z".toList, "1".toList), ("a".toList, "2".toList), ("z".toList, "3".toList)],
+                       buckets := none, overrides := [], quantiles := [] }
+    cfg.globals = [("z".toList, "3".toList), ("a".toList, "2".toList)]
+    ∧ (step (init cfg) (.hrecMany k 7 3)).hists = (run (init cfg) [.hrec k 7, .hrec k 7, .hrec k 7]).hists
+    ∧ (step (init cfg) (.hrecMany k 7 0)).hists = [(k, [])] := by decide
+
+example :
+    let k : MKey := ⟨"c".toList, [("host".toList, "a".toList)]⟩
+    let cfg : Cfg := { unitSuffix := false, globals := [], buckets := none, overrides := [], quantiles := [] }
+    Line.sample "c".toList none ["host=\"a\"".toList] none "12".toList
+      ∈ (renderLines (run (init cfg) [.cinc k 5, .cinc k 7])).2.flatten := by decide
+
 
 example :
     let k : MKey := ⟨"lat".toList, [("host".toList, "a".toList)]⟩
